@@ -27,6 +27,31 @@ def _var(vals, dim, unit):
     return V.Variable(_arr=a, dims=(dim,), unit=V.parse_unit(unit), dtype=V.DType.float64)
 
 
+def _clip(cc, sc, sub, Tv, close_to_open, other):
+    """One half-plane clip of a subframe through the PUBLIC API: a frame at the chopper's own distance (no shear) chopped by
+    a single opening whose other edge (`other`) lies beyond every vertex, so that only the edge at T cuts.
+    -> clipped Subframe or None."""
+    d0 = sc.scalar(0.0, unit='m')
+    fr = cc.Frame(distance=d0, subframes=[sub])
+    if close_to_open:
+        ch = cc.Chopper(distance=d0, time_open=_wrap1(Tv), time_close=_wrap1(other))
+    else:
+        ch = cc.Chopper(distance=d0, time_open=_wrap1(other), time_close=_wrap1(Tv))
+    out = fr.chop(ch).subframes
+    if len(out) > 1:
+        raise AssertionError('one subframe and one opening gave several subframes')
+    return out[0] if out else None
+
+
+def _wrap1(v):
+    import numpy as np
+    from symsc import variable as V
+
+    a = np.empty((1,), dtype=object)
+    a[0] = v.value
+    return V.Variable(_arr=a, dims=('slit',), unit=v.unit, dtype=V.DType.float64)
+
+
 def job_clip(j, seed):
     """One clipping step from an arbitrary polygon (inductive step for any chop history)."""
     n, close_to_open = j
@@ -43,8 +68,13 @@ def job_clip(j, seed):
     T = C.sym_var('T')
     frame = cc.Subframe(time=_var(t, 'vertex', 's'), wavelength=_var(w, 'vertex', 'angstrom'))
     Tv = sc.scalar(T, unit='s')
+    # the opening's other edge: beyond every vertex and beyond the cut, so that it removes nothing
+    Tfar = C.sym_var('Tfar')
+    for x in (*t, T):
+        C.CTX.assume(Tfar > x if close_to_open else Tfar < x)
+    far = sc.scalar(Tfar, unit='s')
     C.CTX.fork_timeout_ms = 3000
-    paths = C.explore(lambda: cc._chop(frame, Tv, close_to_open=close_to_open), max_paths=200)
+    paths = C.explore(lambda: _clip(cc, sc, frame, Tv, close_to_open, far), max_paths=200)
 
     def inside(x):
         return (x >= T) if close_to_open else (x <= T)
@@ -284,6 +314,11 @@ def job_framechop(j, seed):
             return self.base.end_wavelength
 
     calls = []
+    if not hasattr(cc, '_chop'):
+        # the clip step is isolated by replacing the module's private helper; after a refactoring that renames it this job
+        # cannot be set up (the clip, propagate, order and regularity obligations do not depend on it)
+        obs.append({'name': f'{tag}:clip step can be isolated (module-level helper _chop)', 'status': 'inconclusive', 'detail': 'helper not found: pairing of subframes with openings not checked', 't': 0})
+        return {'obligations': obs, 'candidates': cands, 'paths': 0}
     real = cc._chop
 
     def fake(frame_, T, close_to_open):
@@ -456,7 +491,15 @@ def job_fp(j, seed):
     C.CTX.assume(rng(b, 1e-3, 1e3))
     frame = cc.Subframe(time=_var([ti, tj, t2], 'vertex', 's'), wavelength=_var([a, a, b], 'vertex', 'angstrom'))
     C.CTX.fork_timeout_ms = 20000
-    paths = C.explore(lambda: cc._chop(frame, sc.scalar(T, unit='s'), close_to_open=True), max_paths=16)
+    # the public route first propagates the frame to the chopper (here: by zero distance).  That step is the subject of the
+    # 'propagate' obligations; it is taken out of this bit-level lemma (identity), which is about the interpolation only
+    far = sc.scalar(FPV.lift(1000.0), unit='s')  # closes long after every vertex (times are in [0, 10])
+    real_prop = cc.Frame.propagate_to
+    cc.Frame.propagate_to = lambda self, distance: self
+    try:
+        paths = C.explore(lambda: _clip(cc, sc, frame, sc.scalar(T, unit='s'), True, far), max_paths=16)
+    finally:
+        cc.Frame.propagate_to = real_prop
     n = 0
     for k, p in enumerate(paths):
         if p.exc is not None or p.inconclusive or p.value is None:
@@ -538,7 +581,11 @@ def replay_real(case):
             w = 5 + 3 * np.sin(ang) * rng.uniform(0.5, 1)
             T = rng.uniform(1, 9)
             sub = cc.Subframe(time=sc.array(dims=['vertex'], values=t, unit='s'), wavelength=sc.array(dims=['vertex'], values=w, unit='angstrom'))
-            out = cc._chop(sub, sc.scalar(T, unit='s'), close_to_open=case['close_to_open'])
+            far = sc.array(dims=['slit'], values=[1e6 if case['close_to_open'] else -1e6], unit='s')
+            cut = sc.array(dims=['slit'], values=[T], unit='s')
+            d0 = sc.scalar(0.0, unit='m')
+            res = cc.Frame(distance=d0, subframes=[sub]).chop(cc.Chopper(distance=d0, time_open=cut if case['close_to_open'] else far, time_close=far if case['close_to_open'] else cut)).subframes
+            out = res[0] if res else None
             ins = (t >= T) if case['close_to_open'] else (t <= T)
             exp = []
             for i in range(n):
